@@ -5,7 +5,7 @@ import (
 	"go/types"
 	"strings"
 
-	"golang.org/x/tools/go/ssa"
+	"ikeverif/checker/xt/ssa"
 )
 
 // E4 helpers: ordering, error discipline, who-may-call (DESIGN 3.5).
